@@ -330,55 +330,101 @@ def run_history(hist, sym, st: Stats, equal_names=False):
 
 
 # ---------------------------------------------------------------------------------------
-# a second, minimal family: ramp -> one link -> free destination.  Short histories reach states in which
-# a per-element step was ATTEMPTED and failed (its neighbour was not initialised yet)
+# minimal families, explored by BFS with states merged on the model key.  Short histories reach states in which
+# a per-element step was ATTEMPTED and failed, an element was initialised with a plain number, or a state-less
+# element was stepped while a stateful one was not.
+#   mini1: ramp O -> link L -> free destination
+#   mini2: ideal origin I -> link A -> node with ramp R -> link B -> free destination
 # ---------------------------------------------------------------------------------------
-MINI_OPS = [("init", "L"), ("init", "O"), ("step", "L"), ("step", "O"), ("netstep",)]
-MINI_DEPS = {"L": ("L", "O"), "O": ("O", "L")}
-
-
-def run_mini(hist, sym, st: Stats):
+def _mini1():
     a, b = M.Node(name="a"), M.Node(name="b")
     objs = {"L": M.Link(2, 2, 1.0, 180.0, 33.5, 102.0, 1.867, name="L"), "O": M.MeteredOnRamp(2000.0, name="O")}
-    net = M.Network(name="mini").add_path((a, objs["L"], b), origin=objs["O"], destination=M.Destination(name="D"))
+    net = M.Network(name="mini1").add_path((a, objs["L"], b), origin=objs["O"], destination=M.Destination(name="D"))
+    return net, objs
+
+
+def _mini2():
+    a, b, c = M.Node(name="a"), M.Node(name="b"), M.Node(name="c")
+    objs = {"A": M.Link(2, 2, 1.0, 180.0, 33.5, 102.0, 1.867, name="A"), "B": M.Link(1, 2, 1.0, 180.0, 33.5, 102.0, 1.867, name="B"),
+            "R": M.MeteredOnRamp(2000.0, name="R"), "I": M.Origin(name="I")}
+    net = (M.Network(name="mini2").add_path((a, objs["A"], b, objs["B"], c), origin=objs["I"], destination=M.Destination(name="D"))
+           .add_origin(objs["R"], b))
+    return net, objs
+
+
+FAMILIES = {
+    "mini1": dict(build=_mini1, stateful=("L", "O"), stateless=(), ramps=("O",), n_states={"L": 4, "O": 1},
+                  deps={"L": ("L", "O"), "O": ("O", "L")}),
+    "mini2": dict(build=_mini2, stateful=("A", "B", "R"), stateless=("I",), ramps=("R",), n_states={"A": 4, "B": 2, "R": 1},
+                  deps={"A": ("A", "B"), "B": ("B", "A", "R"), "R": ("R", "B")}),
+}
+
+
+def mini_ops(fam):
+    F = FAMILIES[fam]
+    return ([("init", e) for e in F["stateful"]] + [("init_num", e) for e in F["ramps"]]
+            + [("step", e) for e in F["stateful"] + F["stateless"]] + [("netstep",)])
+
+
+def run_mini(fam, hist, sym, st: Stats):
+    """Replays one history on fresh objects of the family.  Returns (problems, key) or (None, None)."""
+    F = FAMILIES[fam]
+    net, objs = F["build"]()
     eng = env.casadi_engine(sym)
-    gen = {"L": 0, "O": 0}
-    stepped = {"L": None, "O": None}
+    gen = {e: 0 for e in F["stateful"]}
+    num = {e: False for e in F["stateful"]}
+    stepped = {e: None for e in F["stateful"]}
+    attempted = {e: False for e in F["stateful"]}
+    stateless_stepped = {e: False for e in F["stateless"]}
     g = 0
     problems = []
     for op in hist:
         st.inc("transitions")
         k = op[0]
-        if k == "init":
-            objs[op[1]].init_vars(engine=eng)
+        if k in ("init", "init_num"):
+            if k == "init":
+                objs[op[1]].init_vars(engine=eng)
+            else:
+                objs[op[1]].init_vars(init_conditions={"w": W_NUM}, engine=eng)
             g += 1
             gen[op[1]] = g
+            num[op[1]] = k == "init_num"
         elif k == "step":
             e = op[1]
-            fails = not all(gen[x] > 0 for x in MINI_DEPS[e])
+            if e in F["stateless"]:
+                objs[e].step(net=net, engine=eng, **P_SETS[0])
+                stateless_stepped[e] = True
+                continue
+            fails = not all(gen[x] > 0 for x in F["deps"][e])
             try:
                 objs[e].step(net=net, engine=eng, **P_SETS[0])
                 ok = True
             except Exception:  # noqa: BLE001
                 ok = False
             if fails and ok:
-                return None  # outside the model
+                return None, None  # outside the model
             if not fails and not ok:
                 problems.append(("C19/op-exception/step", f"{op} raised although everything it reads is initialised"))
-                return problems
+                return problems, None
             if ok:
-                stepped[e] = {x: gen[x] for x in MINI_DEPS[e]}
+                stepped[e] = {x: gen[x] for x in F["deps"][e]}
+                attempted[e] = False
             else:
                 st.inc("failed_steps_executed")
+                attempted[e] = True
         else:
             net.step(engine=eng, **P_SETS[0])
-            for e in ("L", "O"):
+            for e in F["stateful"]:
                 g += 1
                 gen[e] = g
-            for e in ("L", "O"):
-                stepped[e] = {x: gen[x] for x in MINI_DEPS[e]}
+                num[e] = False
+            for e in F["stateful"]:
+                stepped[e] = {x: gen[x] for x in F["deps"][e]}
+                attempted[e] = False
+            for e in F["stateless"]:
+                stateless_stepped[e] = True
     why = ""
-    for e in ("L", "O"):
+    for e in F["stateful"]:
         if gen[e] == 0:
             why = f"{e} not initialised"
         elif stepped[e] is None:
@@ -387,39 +433,57 @@ def run_mini(hist, sym, st: Stats):
             why = f"{e} stale"
         if why:
             break
+    key = (tuple(sorted((e, gen[e] > 0, num[e], attempted[e],
+                         None if stepped[e] is None else tuple(sorted((x, gen[x] == v) for x, v in stepped[e].items())))
+                        for e in F["stateful"])), tuple(sorted(stateless_stepped.items())))
     st.inc("executions")
     try:
-        F = eng.to_function(net, compact=0)
+        Fn = eng.to_function(net, compact=0)
         got = "function"
     except RuntimeError:
         got = "raise"
     except Exception as e:  # noqa: BLE001
         problems.append((f"C19/wrong-exception/{type(e).__name__}", f"to_function raised {exc_text(e)} (model: {why or 'ready'})"))
-        return problems
-    st.outcome(("mini", bool(why), got))
+        return problems, key
+    st.outcome((fam, bool(why), got))
+    n_states = sum(F["n_states"].values())
     if why and got == "function":
-        problems.append((f"C19/function-returned/{why.split()[1]}/{'free' if F.get_free() else 'nofree'}",
-                         f"{sym}: to_function returned {F} although {why}"))
+        problems.append((f"C19/function-returned/{why.split()[1]}/{'free' if Fn.get_free() else 'nofree'}",
+                         f"{sym}: to_function returned {Fn} although {why}"))
     elif not why and got == "raise":
-        problems.append(("C19/unexpected-raise", f"{sym}: to_function raised although both elements are initialised and stepped"))
-    elif not why and F.get_free():
-        problems.append(("C19/free-symbols", f"{sym}: free symbols {F.get_free()}"))
-    elif not why and (F.n_out() != 3 or F.nnz_in() != 7):
-        problems.append(("C19/incomplete-function", f"{sym}: function {F} does not have 3 results / 7 scalar inputs"))
-    return problems
+        problems.append(("C19/unexpected-raise", f"{sym}: to_function raised although every element is initialised and stepped"))
+    elif not why and Fn.get_free():
+        problems.append(("C19/free-symbols", f"{sym}: free symbols {Fn.get_free()}"))
+    elif not why and Fn.nnz_out() != n_states:
+        problems.append(("C19/missing-next-states", f"{sym}: function {Fn} has {Fn.nnz_out()} result scalars, the network has "
+                         f"{n_states} state scalars"))
+    return problems, key
 
 
 def worker_mini(item):
-    first, length, sym = item
+    """BFS over one family with states merged on the model key."""
+    fam, depth, sym = item
     st = Stats()
-    for rest in itertools.product(MINI_OPS, repeat=length - 1):
-        hist = (first,) + rest
-        problems = run_mini(hist, sym, st)
-        if problems is None:
-            continue
-        st.inc("states")
-        for sig, msg in problems:
-            st.violation(sig, f"mini-network history {hist}: {msg}", {"history": hist, "sym": sym, "family": "mini"})
+    ops = mini_ops(fam)
+    seen = set()
+    frontier = [()]
+    for d in range(depth):
+        nxt = []
+        for hist in frontier:
+            for op in ops:
+                h2 = hist + (op,)
+                problems, key = run_mini(fam, h2, sym, st)
+                if problems is None:
+                    continue
+                for sig, msg in problems:
+                    st.violation(sig, f"{fam} history {h2}: {msg}", {"history": h2, "sym": sym, "family": fam})
+                if problems or key in seen:
+                    continue
+                seen.add(key)
+                st.inc("states")
+                nxt.append(h2)
+        frontier = nxt
+    st.inc(f"{fam}_states_{sym}", len(seen))
     return st
 
 
@@ -514,17 +578,15 @@ def explore(tier, seed, nproc):
             r = run_shards(worker_unmerged, [([f], k, sym) for f in firsts], nproc)
             per_len[f"{sym}:{k}"] = r.c.get("states", 0)
             st.merge(r)
-    kmini = 5 if tier == "quick" else 7
-    for sym in ("SX", "MX"):
-        for k in range(1, kmini + 1):
-            st.merge(run_shards(worker_mini, [(f, k, sym) for f in MINI_OPS], nproc))
+    kmini = 6 if tier == "quick" else 8
+    st.merge(run_shards(worker_mini, [(fam, kmini, sym) for fam in FAMILIES for sym in ("SX", "MX")], nproc))
     merged = {}
     for sym in ("SX", "MX"):
         n, levels, done = explore_merged(dmax, sym, nproc, st)
         merged[sym] = {"distinct_model_states": n, "new_states_per_level": levels, "depth_completed": done}
         st.inc("states", n)
     cov = {"operations": len(OPS), "unmerged_history_length_completed": kmax, "unmerged_histories": per_len,
-           "merged_bfs": merged, "mini_family": {"operations": len(MINI_OPS), "history_length_completed": kmini},
+           "merged_bfs": merged, "mini_families": {"families": list(FAMILIES), "bfs_depth_completed": kmini},
            "rule": "every history over the 17 operations up to the length (those using a disabled operation are dropped and "
                    "counted), replayed on fresh real objects, to_function observed in the reached state; plus BFS with states "
                    "merged on the model key"}
@@ -544,9 +606,10 @@ def _detuple(x):
 def replay(case):
     st = Stats()
     hist = tuple(_detuple(op) for op in case["history"])
-    if case.get("family") == "mini":
-        problems = run_mini(hist, case["sym"], st) or []
-        return [f"mini-network history ({case['sym']}): {hist}"] + [f"  {s}: {m}" for s, m in problems], bool(problems)
+    if case.get("family") in FAMILIES:
+        problems, _ = run_mini(case["family"], hist, case["sym"], st)
+        problems = problems or []
+        return [f"{case['family']} history ({case['sym']}): {hist}"] + [f"  {s}: {m}" for s, m in problems], bool(problems)
     problems, model = run_history(hist, case["sym"], st, bool(case.get("equal_names")))
     lines = [f"history ({case['sym']}):"] + [f"   {op}" for op in hist]
     if problems is None:
